@@ -34,6 +34,7 @@ from vlib.core import Check, Discard, Inconclusive, Violation
 
 SIG_RELR_PARITY = "alloc:relr-parity-in-1-aligned-section"
 SIG_BUILD_ID = "alloc:build-id-hex-length-not-multiple-of-4"
+SIG_STRIP_GOTPLT = "alloc:strip-all-with-got-plt-syms"
 
 # ------------------------------------------------------------------------------------------------
 # Message extraction
@@ -645,6 +646,8 @@ class C23(Check):
             return SIG_RELR_PARITY
         if "build-id=hex-odd" in p.opts:
             return SIG_BUILD_ID
+        if "strip-all" in p.opts and "got-plt-syms" in p.opts:
+            return SIG_STRIP_GOTPLT
         return None
 
     # ---------------------------------------------------------------------------------------------
@@ -733,6 +736,8 @@ class C23(Check):
                     sig = SIG_RELR_PARITY
                 if "build-id=hex-odd" in p.opts and part and "build-id" in part.group(1):
                     sig = SIG_BUILD_ID
+                if "strip-all" in p.opts and "got-plt-syms" in p.opts and "symtab/strtab" in hit:
+                    sig = SIG_STRIP_GOTPLT
             else:
                 sig = f"alloc-panic:{panic.group(1)}:{re.sub(r'[0-9]+', 'N', panic.group(2))[:50]}"
             diag = tools.link("wild", ["--threads=2", *base, *wild_only, "-o", "w2.out"], cwd=d, timeout=90,
